@@ -7,8 +7,10 @@ import RotondaModel.Model.ReconfUnits
       Output `<a|d per event> | f0=… f1=… f2=…`.
     `X|n<name>,<u>+<u>|<ev>;…` filter: events `s<u>.<tag>` (upstream u publishes an end-of-stream notice), `R<cfg>`.
       Output per event `f<tag>` | `-` | `n<name>:S<subscribed upstreams>`.
+    `M|<f>+<f>,<d|->|<ev>;…` mrt-file-in: events `q<name>` (GET queue?file=), `R<cfg>`. Output per event
+      `200>d<dir>.<name>` | `400` | `r` | `r>s<f>,s<f>`; the first token is what was read at start.
     `N|<u>+<u>|<ev>;…` null-out: events `r` (ReportLinks), `R<srcs>`. Output per event the reported `<u>.<gen>,…`.
-    Flags: `bgpeq=`, `bgpmatch=`, `bgplisten=`, `fileout=` `as-written|repaired`. -/
+    Flags: `bgpeq=`, `bgpmatch=`, `bgplisten=`, `fileout=`, `mrt=` `as-written|repaired`. -/
 open Rotonda.ReconfUnits
 
 def nat? (s : String) : Option Nat := s.toNat?
@@ -180,6 +182,37 @@ def runFilter (cfg evs : String) : String :=
     " ".intercalate (go (Filter.init c) es)
   | _, _ => "bad-case"
 
+/-! ### mrt-file-in -/
+open Mrt in
+def parseMCfg (s : String) : Option Cfg :=
+  match s.splitOn "," with
+  | [fs, d] => do
+    let fs ← parseUnits fs
+    let d ← if d == "-" then some none else (nat? d).map some
+    pure ⟨fs, d⟩
+  | _ => none
+
+open Mrt in
+def parseMEv (s : String) : Option Ev :=
+  let r := (s.drop 1).toString
+  if s.startsWith "q" then (nat? r).map .api
+  else if s.startsWith "R" then (parseMCfg r).map .reload
+  else none
+
+open Mrt in
+def showMOut : Out → String
+  | .ok d n => s!"200>d{d}.{n}"
+  | .refused => "400"
+  | .reloaded [] => "r"
+  | .reloaded l => "r>" ++ ",".intercalate (l.map (fun f => s!"s{f}"))
+
+def runMrt (v : Variant) (cfg evs : String) : String :=
+  match parseMCfg cfg, (if evs.isEmpty then some [] else (evs.splitOn ";").mapM parseMEv) with
+  | some c, some es =>
+    let start := "start>" ++ orDash (c.files.map (fun f => s!"s{f}"))
+    " ".intercalate (start :: (Mrt.outs v (Mrt.init c) es).map showMOut)
+  | _, _ => "bad-case"
+
 /-! ### null-out -/
 open NullOut in
 def parseNEv (s : String) : Option Ev :=
@@ -200,6 +233,7 @@ def runCase (v : Variant) (line : String) : String :=
   | ["F", c, e] => runFile v c e
   | ["X", c, e] => runFilter c e
   | ["N", c, e] => runNull c e
+  | ["M", c, e] => runMrt v c e
   | _ => "bad-case"
 
 partial def loop (v : Variant) (h : IO.FS.Stream) (out : IO.FS.Stream) : IO Unit := do
@@ -210,5 +244,5 @@ partial def loop (v : Variant) (h : IO.FS.Stream) (out : IO.FS.Stream) : IO Unit
 
 def main (args : List String) : IO Unit := do
   let s (k : String) : Site := if args.contains (k ++ "=repaired") then .repaired else .asWritten
-  let v : Variant := { bgpeq := s "bgpeq", bgpmatch := s "bgpmatch", bgplisten := s "bgplisten", fileout := s "fileout" }
+  let v : Variant := { bgpeq := s "bgpeq", bgpmatch := s "bgpmatch", bgplisten := s "bgplisten", fileout := s "fileout", mrt := s "mrt" }
   loop v (← IO.getStdin) (← IO.getStdout)
